@@ -1135,20 +1135,12 @@ class RevisionStep(MigrationStep):
     def merge_branch_idents(
         self, heads: Set[str]
     ) -> Tuple[List[str], str, str]:
-        other_heads = set(heads).difference(self.from_revisions)
-
-        if other_heads:
-            ancestors = {
-                r.revision
-                for r in self.revision_map._get_ancestor_nodes(
-                    self.revision_map.get_revisions(other_heads), check=False
-                )
-            }
-            from_revisions = list(
-                set(self.from_revisions).difference(ancestors)
-            )
-        else:
-            from_revisions = list(self.from_revisions)
+        # the rows being merged are those down revisions that are
+        # actually present; a down revision that is only implied by
+        # another row has no row of its own
+        from_revisions = [
+            rev for rev in self.from_revisions if rev in heads
+        ]
 
         return (
             # delete revs, update from rev, update to rev
@@ -1159,27 +1151,27 @@ class RevisionStep(MigrationStep):
 
     def _unmerge_to_revisions(self, heads: Set[str]) -> Tuple[str, ...]:
         other_heads = set(heads).difference([self.revision.revision])
+        # for each revision we plan to return, compute its ancestors
+        # (excluding self), and remove those from the final output since
+        # they are already accounted for.
+        ancestors = {
+            r.revision
+            for to_revision in self.to_revisions
+            for r in self.revision_map._get_ancestor_nodes(
+                self.revision_map.get_revisions(to_revision), check=False
+            )
+            if r.revision != to_revision
+        }
         if other_heads:
-            ancestors = {
+            # revisions implied by the rows that remain are accounted
+            # for as well
+            ancestors.update(
                 r.revision
                 for r in self.revision_map._get_ancestor_nodes(
                     self.revision_map.get_revisions(other_heads), check=False
                 )
-            }
-            return tuple(set(self.to_revisions).difference(ancestors))
-        else:
-            # for each revision we plan to return, compute its ancestors
-            # (excluding self), and remove those from the final output since
-            # they are already accounted for.
-            ancestors = {
-                r.revision
-                for to_revision in self.to_revisions
-                for r in self.revision_map._get_ancestor_nodes(
-                    self.revision_map.get_revisions(to_revision), check=False
-                )
-                if r.revision != to_revision
-            }
-            return tuple(set(self.to_revisions).difference(ancestors))
+            )
+        return tuple(set(self.to_revisions).difference(ancestors))
 
     def unmerge_branch_idents(
         self, heads: Set[str]
